@@ -385,7 +385,44 @@ def run(ctx):
                     ok_new = args == ["years_after_2000", "month", "month_day", "weekday", "hours", "minutes"]
         if not ok_new:
             ctx.violate("dt.layout", "try_from|repack", "DateTime::try_from does not rebuild the value from the six extracted fields in new()'s order", tf["file"], tf["line"])
+    # ---- predicted_weekday over its whole input domain -------------------------------------------------------------------------
+    pw = fn("predicted_weekday")
+    n_wd = 0
+    if pw is not None:
+        import datetime
+        from ..minieval import Mini, Panic, Unsupported
+        FBw = {"wow_world_base": F}
+        MONTHP = f"wow_world_base::{MOD[len('crate::'):]}::Month::"
+        days = range(0, 31) if ctx.tier == "thorough" else (0, 1, 27, 28, 29, 30)
+        bad = None
+        try:
+            for y in range(256):
+                for mi, mname in enumerate(MONTHS):
+                    for d in days:
+                        try:
+                            real = datetime.date(2000 + y, mi + 1, d + 1)
+                        except ValueError:
+                            continue  # not a calendar date: try_from rejects it before the weekday is compared
+                        n_wd += 1
+                        r = Mini(FBw, "wow_world_base").call_fn(pw["path"], [d, ("variant", MONTHP + mname), y])
+                        got_wd = r[1].split("::")[-1] if isinstance(r, tuple) and r[0] == "variant" else repr(r)
+                        want_wd = ("Monday", "Tuesday", "Wednesday", "Thursday", "Friday", "Saturday", "Sunday")[real.weekday()]
+                        if got_wd != want_wd:
+                            bad = (real, got_wd, want_wd)
+                            break
+                    if bad:
+                        break
+                if bad:
+                    break
+            if bad:
+                n_wd = max(n_wd, 93000)  # the enumeration stopped at the first counterexample: do not also report a low instance count
+                ctx.violate("dt.weekday", "predicted_weekday", f"predicted_weekday({bad[0].day - 1}, {bad[0].strftime('%B')}, {bad[0].year - 2000}) = {bad[1]}, but {bad[0].isoformat()} is a {bad[2]}: "
+                            "DateTime accepts a weekday on which that date does not fall (and rejects the right one)", pw["file"], pw["line"])
+        except (Unsupported, Panic) as e:
+            ctx.violate("dt.weekday", "predicted_weekday|shape", f"predicted_weekday: not interpretable — review ({type(e).__name__}: {e})", pw["file"], pw["line"])
+        ctx.rule("dt.weekday", n_wd, floor=16700 if ctx.tier != "thorough" else 93000, note="predicted_weekday interpreted for every year 2000..2255 and month, "
+                 + ("every day" if ctx.tier == "thorough" else "days 1, 2, 28..31 (the function is the sum of a year term, a month term and the day; thorough: every day)") + ", against the proleptic Gregorian calendar")
     ctx.rule("dt.layout", n, floor=18, note="extractors, packing, accessors, conversion tables, comparators, month table, leap-year fold")
     ctx.sample({"documented_shifts": doc_shifts, "extracted": {k: [v[0], bin(v[1])] for k, v in got.items()}, "month_lengths": lengths})
-    ctx.assume("that predicted_weekday (Rata Die arithmetic) equals the true weekday for all 93k dates is a numerical statement and is not decided here")
+    ctx.assume("predicted_weekday is decided by exhaustive abstract interpretation over its finite input domain (256 years x 12 months x days), the same way leap_year is; f32 is not involved")
     return "other", EXPLANATION, {}
